@@ -114,4 +114,15 @@ ITEMS = [
     # ---- C03: arithmetic progressions of van der Waerden formulas (a generator: the list of what it yields)
     {"file": "cnfgen/families/ramsey.py", "function": "_vdw_ap_generator", "property": "C03",
      "params": {"N": INT, "k": INT}},
+    # ---- C11: word groups (combinations / permutations / words): a list and a dictionary filled in enumeration order
+    {"file": VARS, "class": "WordOfIndicesVariables", "property": "C11",
+     "methods": {
+         "__init__": {"params": {"formula": TAbs("AbsFormula"), "n": INT, "k": INT, "labelfmt": ERASED, "wordtype": STR}},
+         "__len__": {"params": {}},
+         "__contains__": {"params": {"lit": INT}},
+         "indices": {"params": {"pattern": TList(TOpt(INT))}, "vararg": "pattern"},
+         "_unsafe_index_to_lit": {"params": {"index": TList(TOpt(INT))}, "lean": "index_to_lit"},
+         "__call__": {"params": {"pattern": TList(TOpt(INT))}, "vararg": "pattern"},
+         "to_index": {"params": {"lit": INT}},
+     }},
 ]
